@@ -2,6 +2,7 @@
 import json
 import os
 import re
+import zlib
 
 from harness.engine import tlc as T
 
@@ -39,10 +40,26 @@ def build_app(tree):
         cc = CommandConfig(txt(nd["name"]))
         for a in nd["aliases"]:
             cc.add_alias(txt(a))
+        # the same kind is reached through different sequences of the configuration calls (the flags are a little
+        # state machine: default() clears the anonymous mark, anonymous() sets both, default(False) clears both)
+        route = (zlib.crc32(key.encode()) + i) % 3
         if nd["kind"] == "default":
+            if route == 1:
+                cc.anonymous()
+            elif route == 2:
+                cc.default(False)
             cc.default()
         elif nd["kind"] == "anon":
+            if route == 1:
+                cc.default()
             cc.anonymous()
+        else:
+            if route == 1:
+                cc.default()
+                cc.default(False)
+            elif route == 2:
+                cc.anonymous()
+                cc.default(False)
         if not nd["enabled"]:
             cc.disable()
         if nd["hidden"]:
